@@ -213,8 +213,8 @@ def check_case(ctx, tokens, comp, doc, texts=None, style=None):
     seed = r.random()
     import random
 
-    t_def = Renderer(random.Random(seed), blanks=0.15).compound(comp)
-    t_cus = Renderer(random.Random(seed), blanks=0.15, tokens=tokens).compound(comp)
+    t_def = Renderer(random.Random(seed), blanks=0.15, tight=0.5).compound(comp)
+    t_cus = Renderer(random.Random(seed), blanks=0.15, tokens=tokens, tight=0.5).compound(comp)
     if texts:
         t_def, t_cus = texts
     case = {"tokens": tokens, "comp": comp, "doc": doc, "t_def": t_def, "t_cus": t_cus, "style": style}
@@ -293,6 +293,10 @@ def run(spec, ctx):
                     check_case(ctx, tokens, comp, doc)
                     ctx.count("role_swapped_twin_sequences")
             check_case(ctx, tokens, comp, doc)
+            # operands that END in a member-name shorthand, so that (written without a blank) the operator stands directly
+            # after a name
+            nm = lambda *ns: ["q", "$", [[r.choice(["child", "child", "desc"]), [["name", n]]] for n in ns]]  # noqa: E731
+            check_case(ctx, tokens, [nm("a"), [r.choice("|&"), nm(r.choice("abk"), r.choice("akv"))], [r.choice("|&"), nm("k")], ["|", nm("c", "a")]], doc)
             # each simple operand alone as well
             for q in flat(comp)[:2]:
                 check_case(ctx, tokens, [q], doc)
